@@ -406,19 +406,27 @@ func (b *builder) scenario() *scenario {
 		sc.treeId = root.Id
 		heads := []string{changes[len(changes)-1].Id}
 		sc.open = func(e *env) { e.openSpace(sc) }
+		// after a failed attempt the caller either starts over with a new object or tries the same live tree again
+		sameObject := s.Flip("retry-on-the-same-object", 0.5)
+		if sameObject {
+			sc.name += "(retry on the live tree)"
+		}
 		sc.op = func(e *env) error {
-			st, err := e.ss.CreateStorageWithDeferredCreation(ctxb, treestorage.TreeStorageCreatePayload{RootRawChange: root, Heads: []string{root.Id}})
-			if err != nil {
-				return err
+			t := e.tree
+			if t == nil || !sameObject {
+				st, err := e.ss.CreateStorageWithDeferredCreation(ctxb, treestorage.TreeStorageCreatePayload{RootRawChange: root, Heads: []string{root.Id}})
+				if err != nil {
+					return err
+				}
+				t, err = objecttree.BuildObjectTree(st, e.acl)
+				if err != nil {
+					return err
+				}
+				e.tree = t
 			}
-			t, err := objecttree.BuildObjectTree(st, e.acl)
-			if err != nil {
-				return err
-			}
-			e.tree = t
 			t.Lock()
 			defer t.Unlock()
-			_, err = t.AddRawChanges(ctxb, objecttree.RawChangesPayload{NewHeads: heads, RawChanges: changes})
+			_, err := t.AddRawChanges(ctxb, objecttree.RawChangesPayload{NewHeads: heads, RawChanges: changes})
 			return err
 		}
 		sc.live = func(e *env) (string, string, error) { return "", "", nil } // the object is created by the operation
